@@ -839,6 +839,21 @@ func (a *absFn) eval(v ssa.Value, block int) Itv {
 	return it
 }
 
+// evalOnEdge evaluates v with the facts of pred plus the condition under
+// which control passes from pred to succ (phi operands are selected by edges).
+func (a *absFn) evalOnEdge(v ssa.Value, pred, succ *ssa.BasicBlock) Itv {
+	ifi, ok := pred.Instrs[len(pred.Instrs)-1].(*ssa.If)
+	if !ok || pred.Succs[0] == pred.Succs[1] {
+		return a.eval(v, pred.Index)
+	}
+	holds := pred.Succs[0] == succ
+	syn := -(pred.Index*1000 + succ.Index + 1)
+	if _, done := a.facts[syn]; !done {
+		a.facts[syn] = append(append([]LinForm{}, a.facts[pred.Index]...), a.condFacts(ifi.Cond, holds)...)
+	}
+	return a.eval(v, syn)
+}
+
 // factsAt: linear facts (<= 0) that hold at the entry of the block.
 func (a *absFn) factsAt(block int) []LinForm { return a.facts[block] }
 
@@ -1217,7 +1232,7 @@ func (a *absFn) init() {
 					var acc Itv
 					first := true
 					for i, e := range p.Edges {
-						ev := a.eval(e, p.Block().Preds[i].Index)
+						ev := a.evalOnEdge(e, p.Block().Preds[i], p.Block())
 						if ev.empty() {
 							continue
 						}
